@@ -180,11 +180,22 @@ def run_case(case, work, rec):
         rec.violation(f"minuterie printed {mm.group(1)} for header time {m.time!r}", key=key)
 
     # ---- menu default view
+    hv = ["-hv", f"{reps[0]}, not_there"]
     optsets = [([], "default"), (["-m"], "minmax"), (["-f"], "finest"), (["-m", "-f"], "minmax+finest"),
-               (["-d"], "description"), (["-e"], "every"), (["-hv", f"{reps[0]}, not_there"], "has_var")]
+               (["-d"], "description"), (["-e"], "every"), (hv, "has_var")]
+    # two options together: every view asked for is printed (min/max table, search result, description / table of all
+    # known fields, in that order) - three combinations per case, rotating
+    combos = [(hv + ["-d"], "has_var,description"), (["-m", "-d"], "minmax,description"), (["-f", "-e"], "finest,every"),
+              (hv + ["-m"], "minmax,has_var"), (hv + ["-e"], "has_var,every"), (["-m", "-f", "-d"], "minmax+finest,description"),
+              (["-d"] + hv + ["-f"], "finest,has_var,description")]
+    k0 = rng.randrange(len(combos))
+    optsets += [combos[(k0 + j) % len(combos)] for j in range(3)]
     order = list(optsets)
     rng.shuffle(order)
     for opts, od in order + [optsets[0]]:        # the default view again after the others (class-level state)
+        views = od.split(",")
+        if len(views) > 1:
+            rec.count("menu_runs_with_two_or_more_views")
         out, err = run_tool("amr_kitchen.menu.cli", ["menu", path] + opts, work, sub and od == "default")
         rec.count("menu_runs")
         key = (digest, "menu", od)
@@ -196,102 +207,103 @@ def run_case(case, work, rec):
             rec.count("menu_runs_not_parsed")
             continue
         probs = []
-        if od == "default":
-            rows, rest = boxed(out, "Fields found in file:")
-            toks = " ".join(rows).split() if rows is not None else None
-            if toks is None:
-                rec.undecided("menu default view not recognised (output layout changed?)")
-                continue
-            else:
-                want = sorted(set(reps))
-                if sorted(toks) != want:
-                    missing = [x for x in want if x not in toks]
-                    twice = sorted({x for x in toks if toks.count(x) > 1})
-                    extra = [x for x in toks if x not in want]
-                    probs.append(f"fields box lists {sorted(toks)}; header fields are represented by {want} "
-                                 f"(missing {missing}, listed twice {twice}, unexpected {extra})")
-            if species:
-                srows, _ = boxed(out, "Species found in file:")
-                stoks = " ".join(srows).split() if srows is not None else None
-                if stoks is None or sorted(stoks) != species:
-                    probs.append(f"species box lists {stoks}; header has {species}")
-        elif od in ("minmax", "finest", "minmax+finest"):
-            rec.count("minmax_tables")
-            rows, _ = boxed(out.split("Fields' Mins and Maxs:")[-1], "Units") if "Fields' Mins and Maxs:" in out else (None, None)
-            if rows is None:
-                rec.undecided("menu min/max table not recognised (output layout changed?)")
-                continue
-            else:
-                got = {}
-                dup = []
-                for row in rows:
-                    for part in row.split("\t"):
-                        if " : " not in part:
-                            continue
-                        nm, rest = part.split(" : ", 1)
-                        nm = nm.strip()
-                        if not nm:
-                            continue
-                        t = rest.split()
-                        if nm in got:
-                            dup.append(nm)
-                        got[nm] = t[:2]
-                finest_only = od in ("finest", "minmax+finest")
-                for fi, nm in enumerate(names):
-                    lvs = [r["finest"]] if finest_only else range(r["finest"] + 1)
-                    emin = min(min(row[fi] for row in r["levels"][lv]["mins"]) for lv in lvs)
-                    emax = max(max(row[fi] for row in r["levels"][lv]["maxs"]) for lv in lvs)
-                    if nm not in got:
-                        probs.append(f"field {nm} has no row in the min/max table ({len(names)} fields)")
-                        continue
-                    try:
-                        gmin, gmax = float(got[nm][0]), float(got[nm][1])
-                    except Exception:
-                        probs.append(f"row of {nm} unparsable: {got[nm]}"); continue
-                    if gmin != fmt3(emin) or gmax != fmt3(emax):
-                        probs.append(f"field {nm}: printed ({got[nm][0]}, {got[nm][1]}), extrema of the "
-                                     f"{'finest level' if finest_only else 'levels'} tables are ({fmt3(emin)!r}, {fmt3(emax)!r})")
-                if dup:
-                    probs.append(f"fields listed twice: {dup}")
-                extra = [k for k in got if k not in names]
-                if extra:
-                    probs.append(f"rows for names not in the header: {extra}")
-        elif od == "description":
-            rows, _ = boxed(out.split("Fields found in file:")[-1], "Description") if "Fields found in file:" in out else (None, None)
-            if rows is None:
-                rec.undecided("menu description table not recognised (output layout changed?)")
-                continue
-            else:
-                got = [row.split(" : ")[0].strip() for row in rows if " : " in row]
-                if sorted(got) != sorted(set(reps)):
-                    probs.append(f"description table lists {sorted(got)}; expected {sorted(set(reps))}")
-        elif od == "every":
-            # the table of all known fields: a name is flagged present exactly when a header field is represented by it
-            rows, _ = boxed(out.split("All known fields:")[-1], "Present") if "All known fields:" in out else (None, None)
-            if rows is None:
-                rec.undecided("menu table of all known fields not recognised (output layout changed?)")
-                continue
-            flags = {}
-            twice = []
-            for row in rows:
-                if " : " not in row:
+        for od in views:      # an option combination prints several views one after the other: each is judged
+            if od == "default":
+                rows, rest = boxed(out, "Fields found in file:")
+                toks = " ".join(rows).split() if rows is not None else None
+                if toks is None:
+                    rec.undecided("menu default view not recognised (output layout changed?)")
                     continue
-                t = row.split(" : ")[0].split()
-                if len(t) >= 2 and t[-1] in ("Yes", "No"):
-                    nm = " ".join(t[:-1])
-                    if nm in flags:
-                        twice.append(nm)
-                    flags[nm] = t[-1] == "Yes"
-            if not flags:
-                rec.undecided("menu table of all known fields not recognised (output layout changed?)")
-                continue
-            yes = sorted(k for k, v in flags.items() if v)
-            if yes != sorted(set(reps)) or twice:
-                probs.append(f"table of all known fields flags {yes} as present; the header fields are represented by "
-                             f"{sorted(set(reps))} (listed twice: {twice})")
-        elif od == "has_var":
-            if f"'{reps[0]}' found" not in out or "'not_there' not found" not in out:
-                probs.append(f"search results wrong: {out.strip()[:200]}")
+                else:
+                    want = sorted(set(reps))
+                    if sorted(toks) != want:
+                        missing = [x for x in want if x not in toks]
+                        twice = sorted({x for x in toks if toks.count(x) > 1})
+                        extra = [x for x in toks if x not in want]
+                        probs.append(f"fields box lists {sorted(toks)}; header fields are represented by {want} "
+                                     f"(missing {missing}, listed twice {twice}, unexpected {extra})")
+                if species:
+                    srows, _ = boxed(out, "Species found in file:")
+                    stoks = " ".join(srows).split() if srows is not None else None
+                    if stoks is None or sorted(stoks) != species:
+                        probs.append(f"species box lists {stoks}; header has {species}")
+            elif od in ("minmax", "finest", "minmax+finest"):
+                rec.count("minmax_tables")
+                rows, _ = boxed(out.split("Fields' Mins and Maxs:")[-1], "Units") if "Fields' Mins and Maxs:" in out else (None, None)
+                if rows is None:
+                    rec.undecided("menu min/max table not recognised (output layout changed?)")
+                    continue
+                else:
+                    got = {}
+                    dup = []
+                    for row in rows:
+                        for part in row.split("\t"):
+                            if " : " not in part:
+                                continue
+                            nm, rest = part.split(" : ", 1)
+                            nm = nm.strip()
+                            if not nm:
+                                continue
+                            t = rest.split()
+                            if nm in got:
+                                dup.append(nm)
+                            got[nm] = t[:2]
+                    finest_only = od in ("finest", "minmax+finest")
+                    for fi, nm in enumerate(names):
+                        lvs = [r["finest"]] if finest_only else range(r["finest"] + 1)
+                        emin = min(min(row[fi] for row in r["levels"][lv]["mins"]) for lv in lvs)
+                        emax = max(max(row[fi] for row in r["levels"][lv]["maxs"]) for lv in lvs)
+                        if nm not in got:
+                            probs.append(f"field {nm} has no row in the min/max table ({len(names)} fields)")
+                            continue
+                        try:
+                            gmin, gmax = float(got[nm][0]), float(got[nm][1])
+                        except Exception:
+                            probs.append(f"row of {nm} unparsable: {got[nm]}"); continue
+                        if gmin != fmt3(emin) or gmax != fmt3(emax):
+                            probs.append(f"field {nm}: printed ({got[nm][0]}, {got[nm][1]}), extrema of the "
+                                         f"{'finest level' if finest_only else 'levels'} tables are ({fmt3(emin)!r}, {fmt3(emax)!r})")
+                    if dup:
+                        probs.append(f"fields listed twice: {dup}")
+                    extra = [k for k in got if k not in names]
+                    if extra:
+                        probs.append(f"rows for names not in the header: {extra}")
+            elif od == "description":
+                rows, _ = boxed(out.split("Fields found in file:")[-1], "Description") if "Fields found in file:" in out else (None, None)
+                if rows is None:
+                    rec.undecided("menu description table not recognised (output layout changed?)")
+                    continue
+                else:
+                    got = [row.split(" : ")[0].strip() for row in rows if " : " in row]
+                    if sorted(got) != sorted(set(reps)):
+                        probs.append(f"description table lists {sorted(got)}; expected {sorted(set(reps))}")
+            elif od == "every":
+                # the table of all known fields: a name is flagged present exactly when a header field is represented by it
+                rows, _ = boxed(out.split("All known fields:")[-1], "Present") if "All known fields:" in out else (None, None)
+                if rows is None:
+                    rec.undecided("menu table of all known fields not recognised (output layout changed?)")
+                    continue
+                flags = {}
+                twice = []
+                for row in rows:
+                    if " : " not in row:
+                        continue
+                    t = row.split(" : ")[0].split()
+                    if len(t) >= 2 and t[-1] in ("Yes", "No"):
+                        nm = " ".join(t[:-1])
+                        if nm in flags:
+                            twice.append(nm)
+                        flags[nm] = t[-1] == "Yes"
+                if not flags:
+                    rec.undecided("menu table of all known fields not recognised (output layout changed?)")
+                    continue
+                yes = sorted(k for k, v in flags.items() if v)
+                if yes != sorted(set(reps)) or twice:
+                    probs.append(f"table of all known fields flags {yes} as present; the header fields are represented by "
+                                 f"{sorted(set(reps))} (listed twice: {twice})")
+            elif od == "has_var":
+                if f"'{reps[0]}' found" not in out or "'not_there' not found" not in out:
+                    probs.append(f"search results wrong: {out.strip()[:200]}")
         rec.count("menu_views_judged")
         if probs:
             rec.violation(f"menu output does not report the header ({probs[0][:160]}): {descr}", key=key,
